@@ -61,7 +61,7 @@ func genUtxo(g *hx.Gen, r *hx.Rand) {
 
 func genIdx(g *hx.Gen, r *hx.Rand) {
 	g.Emit("reset")
-	g.Emit("i.reset %d", 2+r.Intn(6))
+	g.Emit("i.reset %d %d", 2+r.Intn(6), r.Pick(0, 0, 0, 1)) // MemoryFirst in a quarter of the histories
 	next := 1
 	var blocks [][]int
 	height := 1
@@ -115,7 +115,7 @@ func genIdx(g *hx.Gen, r *hx.Rand) {
 func genIdxTrim(g *hx.Gen, r *hx.Rand) {
 	g.Emit("reset")
 	vol := 3 + r.Intn(5)
-	g.Emit("i.reset %d", vol)
+	g.Emit("i.reset %d 0", vol)
 	g.Emit("i.fill 1 %d 1", vol+10000)
 	g.Emit("i.trim") // exactly at the trigger: nothing happens
 	g.Emit("i.fetch %d", 1+r.Intn(vol+10000))
@@ -133,7 +133,7 @@ func genIdxTrim(g *hx.Gen, r *hx.Rand) {
 // step every transaction of the touched block and a few others are fetched.
 func genIndex(g *hx.Gen, r *hx.Rand) {
 	g.Emit("reset")
-	g.Emit("x.reset %d", 2+r.Intn(8))
+	g.Emit("x.reset %d %d", 2+r.Intn(8), r.Pick(0, 0, 0, 1))
 	next := 1
 	type out struct{ id, idx int }
 	var unspent []out
@@ -273,8 +273,10 @@ func genBlock(g *hx.Gen, r *hx.Rand) {
 	steps := 10 + r.Intn(g.N(20, 40))
 	for s := 0; s < steps; s++ {
 		switch w := r.Intn(100); {
-		case w < 75:
+		case w < 60:
 			g.Emit("b.get %d", 1+r.Intn(n+1))
+		case w < 75:
+			g.Emit("b.get2 %d", 1+r.Intn(n+1))
 		case w < 90:
 			n++
 			g.Emit("b.store %d %d", n, r.Pick(0, 1))
